@@ -907,7 +907,7 @@ fn sub_headers(_tier: Tier) -> Sub {
 }
 
 pub fn def(tier: Tier) -> CheckDef {
-    let subs = vec![sub_traversals(tier), sub_traversals_large(tier), sub_forests(tier), sub_sibling_subsets(tier), sub_headers(tier), cursor::sub_histories(tier), cursor::sub_sequences(tier), treeapi::sub_tree_sequences(tier), sets::sub_abbrev_sets(tier)];
+    let subs = vec![sub_traversals(tier), sub_traversals_large(tier), sub_forests(tier), sub_sibling_subsets(tier), sub_headers(tier), cursor::sub_histories(tier), cursor::sub_sequences(tier), treeapi::sub_tree_sequences(tier), sets::sub_abbrev_sets(Tier::Thorough)];
     let mut required: Vec<String> = vec![];
     for k in ["compile", "type", "type(.debug_types)", "partial", "skeleton", "split_compile", "split_type"] {
         required.push(format!("unit-type:{}", k));
